@@ -460,6 +460,93 @@ def rule_r14(text, rules):
             break
         if done: return text
 
+def rule_r14b(text, rules):
+    """if A {X} [else if B {Y}]* [else {Z}] REST   where some arms end in `continue;` and the enclosing block is in tail position of a
+    loop body  ->  the `continue;` is dropped from those arms, REST is appended to every other arm (an `else { REST }` is added when the
+    chain has no final else) and removed after the chain.  (Skipping REST is all that `continue` did there.)"""
+    guard = 0
+    while True:
+        guard += 1
+        if guard > 30: return text
+        toks, st = _sig_with_index(text)
+        hit = None
+        for ci, t in enumerate(st):
+            if not (t.kind == "ident" and t.text == "continue"): continue
+            if not (ci + 2 < len(st) and st[ci + 1].text == ";" and st[ci + 2].text == "}"): continue
+            arm_close = ci + 2
+            arm_open = _enclosing_open(st, ci)
+            if arm_open is None or _block_header_kw(st, arm_open) not in ("if", "else"): continue
+            # find the first `if` of the chain: walk back over `} else if .. {` / `} else {`
+            first_open = arm_open
+            while True:
+                # token before the header of this arm
+                h = first_open - 1
+                if st[h].kind == "ident" and st[h].text == "else":
+                    prev_close = h - 1
+                elif _block_header_kw(st, first_open) == "if":
+                    # find the `if` keyword
+                    q = first_open - 1; d2 = 0
+                    while not (st[q].kind == "ident" and st[q].text == "if" and d2 == 0):
+                        if st[q].text in (")", "]"): d2 += 1
+                        elif st[q].text in ("(", "["): d2 -= 1
+                        q -= 1
+                    if q >= 1 and st[q - 1].kind == "ident" and st[q - 1].text == "else":
+                        prev_close = q - 2
+                    else:
+                        if_kw = q; break
+                else:
+                    if_kw = None; break
+                if st[prev_close].text != "}": if_kw = None; break
+                # opening brace of the previous arm
+                d = 0; j = prev_close
+                while j >= 0:
+                    if st[j].text == "}": d += 1
+                    elif st[j].text == "{":
+                        d -= 1
+                        if d == 0: break
+                    j -= 1
+                first_open = j
+            if if_kw is None or not _stmt_start(st, if_kw): continue
+            # collect the arms of the chain
+            arms = []; j = if_kw; has_else = False
+            while True:
+                k = j + 1; d = 0
+                if st[j].text == "else" and st[j + 1].text == "{":
+                    k = j + 1
+                else:
+                    while not (st[k].text == "{" and d == 0):
+                        if st[k].text in ("(", "["): d += 1
+                        elif st[k].text in (")", "]"): d -= 1
+                        k += 1
+                c = match_close(st, k)
+                arms.append((k, c))
+                if c + 1 < len(st) and st[c + 1].kind == "ident" and st[c + 1].text == "else":
+                    if st[c + 2].text == "{": has_else = True; j = c + 1
+                    else: j = c + 2        # `else if`
+                    continue
+                break
+            chain_end = arms[-1][1]
+            encl = _enclosing_open(st, if_kw - 1) if if_kw > 0 else None
+            if encl is None or not _in_loop_tail(st, encl): continue
+            encl_close = match_close(st, encl)
+            if chain_end + 1 >= encl_close: continue          # nothing follows: plain R14 territory
+            rest = text[st[chain_end].end:st[encl_close].start]
+            if "continue" in [x.text for x in sig(lex(rest)) if x.kind == "ident"] or "break" in [x.text for x in sig(lex(rest)) if x.kind == "ident"]: continue
+            hit = (arms, has_else, chain_end, encl_close, rest); break
+        if hit is None: return text
+        arms, has_else, chain_end, encl_close, rest = hit
+        edits = []
+        for (o, c) in arms:
+            ends_with_continue = (st[c - 1].text == ";" and st[c - 2].kind == "ident" and st[c - 2].text == "continue")
+            if ends_with_continue:
+                edits.append((st[c - 2].start, st[c - 1].end, ""))
+            else:
+                edits.append((st[c].start, st[c].start, rest + "\n"))
+        tail = "" if has_else else " else {" + rest + "}"
+        edits.append((st[chain_end].end, st[encl_close].start, tail + "\n"))
+        text = apply_edits(text, edits)
+        rules.append("R14")
+
 def rule_r4(text, rules):
     """for (i, x) in E.enumerate() { B }  ->  { let mut __nK: usize = 0; for x in E { let i = __nK; __nK += 1; B } }"""
     k = 0
@@ -885,6 +972,8 @@ def extract_item(path, selector, opts, directives, findings_open):
         text = rule_r8(text, rules)
         text = rule_r9(text, rules)
         text = rule_r5(text, rules)
+        text = rule_r14(text, rules)
+        text = rule_r14b(text, rules)
         text = rule_r14(text, rules)
         text = rule_r4(text, rules)
         text = rule_r17(text, rules)
